@@ -177,7 +177,23 @@ fn parse_response(raw: &[u8]) -> std::io::Result<HttpResponse> {
             let (k, v) = line.split_once(':')?;
             Some((k.trim().to_ascii_lowercase(), v.trim().to_string()))
         })
-        .collect();
+        .collect::<Vec<(String, String)>>();
+
+    // The body is read to EOF, so a peer that dies mid-response looks exactly
+    // like one that finished. `Content-Length` is the only framing there is:
+    // a body shorter than it declares is a truncated response, not an answer.
+    if let Some(declared) = headers
+        .iter()
+        .find(|(k, _)| k == "content-length")
+        .and_then(|(_, v)| v.parse::<u64>().ok())
+    {
+        if (body.len() as u64) < declared {
+            return Err(invalid(&format!(
+                "response body truncated: {} of {declared} bytes (Content-Length)",
+                body.len()
+            )));
+        }
+    }
 
     Ok(HttpResponse {
         status,
